@@ -409,6 +409,11 @@ func ZZ_C04_canaryLeavesOtherNodesAlone() {
 	datadoghqv1alpha1.DefaultExtendedDaemonSetSpec(&ds.Spec, datadoghqv1alpha1.ExtendedDaemonSetSpecStrategyCanaryValidationModeAuto)
 	ds.Status.ActiveReplicaSet = rsOld.Name
 	ds.Status.Canary = &datadoghqv1alpha1.ExtendedDaemonSetStatusCanary{ReplicaSet: rsNew.Name, Nodes: []string{zzNodeName(0)}}
+	// (a canary whose replicas resolve to zero has an empty list: then it touches nothing at all)
+	emptyList := nondet.Bool("canaryListEmpty")
+	if emptyList {
+		ds.Status.Canary.Nodes = nil
+	}
 	c.Nodes[0].Labels = map[string]string{"pool": "new"}
 	if nondet.Bool("newTemplateNarrowsEligibility") {
 		rsNew.Spec.Template.Spec.NodeSelector = map[string]string{"pool": "new"}
@@ -429,7 +434,7 @@ func ZZ_C04_canaryLeavesOtherNodesAlone() {
 			nondet.Assert("C04.others.canary-deletes-only-on-canary-nodes", e.Name != "active-pod-node1")
 		}
 		if e.Kind == "Pod" && e.Verb == "create" {
-			nondet.Assert("C04.others.canary-creates-only-on-canary-nodes", e.Node == zzNodeName(0))
+			nondet.Assert("C04.others.canary-creates-only-on-canary-nodes", e.Node == zzNodeName(0) && !emptyList)
 		}
 	}
 	alive := false
